@@ -24,7 +24,8 @@ MANIFEST = {
             'the exact callback sequence.  Held = no divergence on the '
             'histories generated; nothing is claimed beyond them.'
             '  Second session: 40% of the histories register application-like callbacks besides the observers (one-shot callbacks which unregister themselves, callbacks which register others, raising callbacks): the observers must be told the same states.'
-            '  The pilot-end workload also runs both orders without overlap (pilot first, then the late task notification; tasks first, then the pilot end).',
+            '  The pilot-end workload also runs both orders without overlap (pilot first, then the late task notification; tasks first, then the pilot end).'
+            '  Callbacks registered with cb_data and registered again (new data) must be told every state once, with the latest data.',
     'note': 'trusts the reference model (rpverif/props/c06.py:Model) as the '
             'reading of the documented state model; histories are sampled, '
             'not enumerated; callbacks observed through register_callback.'}
